@@ -72,6 +72,8 @@ func loadObs(c *ucfg.Config, err error, panicked bool, pmsg string) (string, str
 	return "(OV " + coqValue(n) + ")", descValue(n)
 }
 
+var c18OptPool = map[string][]ucfg.Option{}
+
 // c18Doc runs one document through the three front-ends.
 func c18Doc(g *Gen, text string, o normOpts, tags ...string) {
 	r := g.R
@@ -137,7 +139,15 @@ func c18Doc(g *Gen, text string, o normOpts, tags ...string) {
 	if err := os.WriteFile(fname, []byte(text), 0o644); err == nil {
 		var c *ucfg.Config
 		var ferr error
-		p, m := guard(func() { c, ferr = fe.loadFile(fname, opts...) })
+		// the caller's option list is one slice, with room to spare, used for every load with
+		// these options: a loader may not rearrange it
+		pk := fmt.Sprintf("%+v", o)
+		shared, ok := c18OptPool[pk]
+		if !ok {
+			shared = append(make([]ucfg.Option, 0, len(opts)+3), opts...)
+			c18OptPool[pk] = shared
+		}
+		p, m := guard(func() { c, ferr = fe.loadFile(fname, shared...) })
 		fo, fd := loadObs(c, ferr, p, m)
 		i := map[string]int{"yaml": 0, "json": 1, "hjson": 2}[fe.name]
 		var msgs []string
@@ -145,6 +155,12 @@ func c18Doc(g *Gen, text string, o normOpts, tags ...string) {
 			// a setting that is no number, read as one; and the same through Unpack
 			if _, err := c.Int("zz_fault", -1, opts...); err != nil {
 				msgs = append(msgs, err.Error())
+			}
+			// a setting whose name holds formatting verbs
+			if has, _ := c.Has("zz_%T%x", -1, opts...); has {
+				if _, err := c.Int("zz_%T%x", -1, opts...); err != nil {
+					msgs = append(msgs, err.Error())
+				}
 			}
 			var t struct {
 				F int `config:"zz_fault"`
@@ -331,7 +347,7 @@ func genC18(g *Gen) {
 			}
 			b.WriteString(sp + j.encodeStr(key) + ": " + t + "," + sp)
 		}
-		b.WriteString(`"zz_obj.mid.leaf": 1, "zz_fault": "notanumber", "zz_null": null, "zz_nobj": {"inner": null}}`)
+		b.WriteString(`"zz_obj.mid.leaf": 1, "zz_fault": "notanumber", "zz_null": null, "zz_nobj": {"inner": null}, "zz_%T%x": "notanumber"}`)
 		o := normOpts{}
 		if r.Bool() {
 			o.Sep = "."
